@@ -97,18 +97,110 @@ Section CU.
   Qed.
 End CU.
 
+(* ---------------------------------------------------------------------- *)
+(** * The "very large covering" branch of normalizeCovering (after /repo 81ed250) is sound:
+    it is the same coverer, with the same options, run on the cell union as a region, so the main
+    theorems apply to it (by induction on the nesting depth). *)
+
+(** what is assumed of [covering.CapBound().CellUnionBound()] (float geometry: H-CAPARITH): valid cells
+    that cover the union *)
+Definition CuBoundOK (cubound : list Z -> list Z) : Prop :=
+  forall l, all_valid l -> normal l ->
+    all_valid (cubound l) /\ (forall x, is_leaf x -> covered l x -> covered (cubound l) x).
+
+Lemma clamp_wf_id : forall cv, wf_cv cv ->
+  let o := mkOpts (minLevel cv) (maxLevel cv) (levelMod cv) (maxCells cv) in
+  clampMinLevel o = minLevel cv /\ clampMaxLevel o = maxLevel cv /\ clampLevelMod o = levelMod cv.
+Proof.
+  intros cv (Hmin & Hmax & Hmod). cbv zeta. unfold clampMinLevel, clampMaxLevel, clampLevelMod.
+  cbn [o_MinLevel o_MaxLevel o_LevelMod]. rewrite !minInt1, !maxInt1. lia.
+Qed.
+
+Theorem cu_fallback_sound : forall cubound, CuBoundOK cubound ->
+  forall depth, FallbackSound (cu_fallback depth cubound).
+Proof.
+  intros cubound HCB. induction depth as [|d IH]; intros cv l r Hwf Vl Nl Hr; [discriminate|].
+  cbn [cu_fallback] in Hr.
+  destruct (HCB l Vl Nl) as (Vb & Cb).
+  destruct (clamp_wf_id cv Hwf) as (E1 & E2 & E3). cbv zeta in E1, E2, E3.
+  set (o := mkOpts (minLevel cv) (maxLevel cv) (levelMod cv) (maxCells cv)) in *.
+  set (pts := fun x => covered l x).
+  pose proof (levels_ok_lemma (cu_IntersectsCellID l) (cu_ContainsCellID l) (cubound l) (cu_fallback d cubound)
+                pts o Vb IH r (or_introl Hr)) as Hlev.
+  split; [|split].
+  - unfold all_valid. eapply Forall_impl; [|exact Hlev]. intros c (Vc & _). exact Vc.
+  - intros x Hx Hc.
+    assert (HI : SoundI (cu_IntersectsCellID l) pts).
+    { intros c Vc (y & _ & Hyc & Hy). apply (cu_intersects_sound l Vl Nl c Vc). exists y; auto. }
+    assert (HB : C05_Main.SoundB (cubound l) pts).
+    { intros y Hy Hp. apply Cb; auto. }
+    exact (covering_covers_lemma (cu_IntersectsCellID l) (cu_ContainsCellID l) (cubound l) (cu_fallback d cubound)
+             pts o Vb IH HI HB r Hr x Hx Hc).
+  - eapply Forall_impl; [|exact Hlev]. intros c (_ & HL & HM). unfold cv_good, good_level.
+    rewrite E1, E2 in HL. rewrite E1, E3 in HM. lia.
+Qed.
+
 (** the premises of the main theorems are jointly satisfiable: the region "face cell 0" with the
-    id-range predicates of s2.Cell, the face itself as bound and an identity fallback *)
+    id-range predicates of s2.Cell, the face itself as bound; a cell union is its own bound *)
 Lemma hyps_example_full :
   let face0 := s2_CellIDFromFace 0 in
   let pts := fun x => leaf_in x face0 in
-  C05_Main.ValidB [face0] /\ FallbackOK (fun l => Some l) /\ C05_Main.SoundB [face0] pts /\
+  C05_Main.ValidB [face0] /\ CuBoundOK (fun l => l) /\ C05_Main.SoundB [face0] pts /\
   SoundI (s2_CellID_Intersects face0) pts /\ SoundC (s2_CellID_Contains face0) pts.
 Proof.
   cbv zeta.
   assert (V0 : valid (s2_CellIDFromFace 0)).
   { exists 0. apply C05_Main.valid_at_compute. vm_compute. reflexivity. }
-  destruct C05_Main.hyps_example as (H1 & H2 & H3). split; [exact H1|]. split; [exact H2|]. split; [exact H3|]. split.
+  destruct C05_Main.hyps_example as (H1 & H2 & H3). split; [exact H1|]. split; [intros l Vl Nl; auto|]. split; [exact H3|]. split.
   - intros c Vc (x & _ & Hxc & Hp). apply cell_intersects_sound; auto. exists x; auto.
   - intros c Vc Hc x _ Hxc. eapply cell_contains_sound; eauto.
 Qed.
+
+(* ---------------------------------------------------------------------- *)
+(** * The main statements instantiated with the real fallback *)
+Section Real.
+  Variable intersects contains : Z -> bool.
+  Variable bound : list Z.
+  Variable cubound : list Z -> list Z.
+  Variable depth : nat.
+  Variable pts : Z -> Prop.
+  Variable rc : opts.
+  Hypothesis HVB : C05_Main.ValidB bound.
+  Hypothesis HCB : CuBoundOK cubound.
+  Notation fb := (cu_fallback depth cubound).
+  Let HFS : FallbackSound fb := cu_fallback_sound cubound HCB depth.
+
+  Lemma real_covering_covers : SoundI intersects pts -> C05_Main.SoundB bound pts ->
+    forall r, Covering intersects contains bound fb rc = Some r -> forall x, is_leaf x -> pts x -> covered r x.
+  Proof. exact (covering_covers_lemma intersects contains bound fb pts rc HVB HFS). Qed.
+  Lemma real_cellunion_covers : SoundI intersects pts -> C05_Main.SoundB bound pts ->
+    forall r, CellUnion intersects contains bound fb rc = Some r -> forall x, is_leaf x -> pts x -> covered r x.
+  Proof. exact (cellunion_covers_lemma intersects contains bound fb pts rc HVB HFS). Qed.
+  Lemma real_fast_covering_covers : C05_Main.SoundB bound pts ->
+    forall r, FastCovering bound fb rc = Some r -> forall x, is_leaf x -> pts x -> covered r x.
+  Proof. exact (fast_covering_covers_lemma bound fb pts rc HVB HFS). Qed.
+  Lemma real_interior_contained : SoundC contains pts ->
+    forall r, InteriorCovering intersects contains bound fb rc = Some r ->
+    forall c, In c r -> forall x, is_leaf x -> leaf_in x c -> pts x.
+  Proof. exact (interior_contained_lemma intersects contains bound fb pts rc HVB HFS). Qed.
+  Lemma real_interior_cellunion_contained : SoundC contains pts ->
+    forall r, InteriorCellUnion intersects contains bound fb rc = Some r ->
+    forall c, In c r -> forall x, is_leaf x -> leaf_in x c -> pts x.
+  Proof. exact (interior_cellunion_contained_lemma intersects contains bound fb pts rc HVB HFS). Qed.
+  Lemma real_levels_ok : forall r,
+    (Covering intersects contains bound fb rc = Some r \/ InteriorCovering intersects contains bound fb rc = Some r \/
+     FastCovering bound fb rc = Some r) -> Forall (level_ok rc) r.
+  Proof.
+    intros r [H|[H|H]].
+    - exact (levels_ok_lemma intersects contains bound fb pts rc HVB HFS r (or_introl H)).
+    - exact (levels_ok_lemma intersects contains bound fb pts rc HVB HFS r (or_intror H)).
+    - exact (fast_levels_ok_lemma intersects contains bound fb pts rc HVB HFS r H).
+  Qed.
+  Lemma real_terminates : FallbackTotal fb ->
+    (exists r, Covering intersects contains bound fb rc = Some r) /\
+    (exists r, InteriorCovering intersects contains bound fb rc = Some r) /\
+    (exists r, CellUnion intersects contains bound fb rc = Some r) /\
+    (exists r, InteriorCellUnion intersects contains bound fb rc = Some r) /\
+    (exists r, FastCovering bound fb rc = Some r).
+  Proof. exact (terminates_lemma intersects contains bound fb pts rc HVB HFS). Qed.
+End Real.
